@@ -3,8 +3,8 @@
    combinations) versus the model (Model/Listing.v) and versus the property's
    specification. *)
 From Coq Require Import String.
-From OCI Require Export Base.Outcome Model.Listing Model.ListingSpec.
-From OCI Require Import Proofs.Seq Proofs.Listing Proofs.ListingStack Proofs.ListingFast.
+From OCI Require Export Base.Outcome Model.Listing Model.ListingSpec Model.ListingCtx.
+From OCI Require Import Proofs.Seq Proofs.Listing Proofs.ListingStack Proofs.ListingFast Proofs.ListingCtx.
 
 (* one yield call as the harness saw it *)
 Inductive entry :=
@@ -12,12 +12,15 @@ Inductive entry :=
   | EErr (code : ecode) (answer : bool)       (* yield("", err): the error's OCI code *)
   | EBad (what : bytes).                      (* anything else, e.g. an item together with an error *)
 
-(* one listing configuration, run against the consumers stop_at k for several k *)
+(* one listing configuration, run against the consumers stop_at k for several k, and against
+   consumers that accept everything while the context given to the listing call is cancelled
+   (or its deadline passes) during their j-th call *)
 Record case := {
   c_stack : stack;
   c_query : query;
   c_start : bytes;
-  c_runs : list (N * list entry)     (* k, the log of yield calls *)
+  c_runs : list (N * list entry);    (* k, the log of yield calls *)
+  c_cruns : list (N * list entry)    (* j, the log of yield calls; the context is done from the j-th call on *)
 }.
 
 (* ---------------- vocabulary of the case files for long listings ----------------
@@ -139,15 +142,50 @@ Definition run_ok (k : stack) (q : query) (start : bytes) (run : N * list entry)
 
 Definition log_eqb (a b : list entry) : bool := list_eqb entry_eqb a b.
 
+(* ---------------- the specification, on one log of a cancelled listing ----------------
+
+   The consumer never declines; the context handed to Repositories / Tags / Referrers becomes
+   done (cancelled, or its deadline passes) during the consumer's j-th call.  The property:
+   "An iteration either delivers the complete sequence or ends with an error, never a silently
+   shortened list."  So, whatever layer looks at the context or ignores it:
+     - the calls obey the protocol, every one was accepted, the items are ascending names of
+       the listing after the start point (as in any run);
+     - the log ends with an error call (the stack's own failure, or the context's error, which
+       has no OCI code), OR it holds every name of the listing and the stack is not one that
+       must fail.
+   A log that just stops after some of the names is a violation. *)
+Definition model_log_c (k : stack) (q : query) (start : bytes) (j : N) : list entry :=
+  map entry_of (calls_c (listing_c k q start) j).
+
+Definition run_ok_c (k : stack) (q : query) (start : bytes) (run : N * list entry) : bool :=
+  let (j, log) := run in
+  let items := log_items log in
+  let want := filter (after q start) (names k q) in
+  log_protocol log && log_answers 0 1 log                      (* every call accepted *)
+  && ascending items
+  && forallb (fun x => mem_bytes x want) items
+  && match last_entry log with
+     | Some (EErr _ _) => true                                   (* ended with an error *)
+     | Some (EItem _ true) | None =>                             (* ended without one: complete, and nothing fails *)
+         match fails k q with
+         | FNo => forallb (fun x => mem_bytes x items) want
+         | _ => false
+         end
+     | Some _ => false
+     end.
+
 (* the two judgements, as they read *)
 Definition model_agrees_lit (c : case) : bool :=
   stack_wfb (c_stack c)
   && forallb (fun run => log_eqb (model_log (c_stack c) (c_query c) (c_start c) (fst run)) (snd run))
-             (c_runs c).
+             (c_runs c)
+  && forallb (fun run => log_eqb (model_log_c (c_stack c) (c_query c) (c_start c) (fst run)) (snd run))
+             (c_cruns c).
 
 Definition obs_ok_lit (c : case) : bool :=
   stack_wfb (c_stack c)
-  && forallb (run_ok (c_stack c) (c_query c) (c_start c)) (c_runs c).
+  && forallb (run_ok (c_stack c) (c_query c) (c_start c)) (c_runs c)
+  && forallb (run_ok_c (c_stack c) (c_query c) (c_start c)) (c_cruns c).
 
 (* a case is non-trivial when there is something to list and to cut: the listing holds at
    least two names, or it must fail *)
@@ -215,14 +253,16 @@ Definition model_agrees (c : case) : bool :=
   let closed := closed_form k q start in
   let ex := if closed then expected k q start else [] in
   stack_wfb_fast k
-  && forallb (fun run => log_eqb (model_log_fast closed ex k q start (fst run)) (snd run)) (c_runs c).
+  && forallb (fun run => log_eqb (model_log_fast closed ex k q start (fst run)) (snd run)) (c_runs c)
+  && forallb (fun run => log_eqb (model_log_c k q start (fst run)) (snd run)) (c_cruns c).
 
 Definition obs_ok (c : case) : bool :=
   let k := c_stack c in
   let q := c_query c in
   let fc := fails k q in
   let want := norm (filter (after q (c_start c)) (names k q)) in     (* sorted once *)
-  stack_wfb_fast k && forallb (run_ok_with fc want) (c_runs c).
+  stack_wfb_fast k && forallb (run_ok_with fc want) (c_runs c)
+  && forallb (run_ok_c k q (c_start c)) (c_cruns c).
 
 Lemma model_log_fast_eq k q start n :
   stack_wfb k = true ->
@@ -290,13 +330,13 @@ Qed.
 Theorem model_agrees_eq c : model_agrees c = model_agrees_lit c.
 Proof.
   unfold model_agrees, model_agrees_lit. cbv zeta. rewrite stack_wfb_fast_eq.
-  destruct (stack_wfb (c_stack c)) eqn:Hw; [|reflexivity]. cbn [andb].
+  destruct (stack_wfb (c_stack c)) eqn:Hw; [|reflexivity]. cbn [andb]. f_equal.
   apply forallb_ext_in. intros run _. now rewrite model_log_fast_eq.
 Qed.
 
 Theorem obs_ok_eq c : obs_ok c = obs_ok_lit c.
 Proof.
-  unfold obs_ok, obs_ok_lit. cbv zeta. rewrite stack_wfb_fast_eq. f_equal.
+  unfold obs_ok, obs_ok_lit. cbv zeta. rewrite stack_wfb_fast_eq. f_equal. f_equal.
   apply forallb_ext_in. intros run _. apply run_ok_with_eq.
 Qed.
 
@@ -443,13 +483,90 @@ Qed.
 
 (* model_agrees c -> obs_ok c: what the model predicts for a well-formed stack satisfies the
    specification (by the stack theorem), and the observation equals the prediction *)
+(* the log of a cancelled listing: what the cancelling consumer sees of a canonical iterator *)
+Lemma log_answers_accepted l tl c :
+  match tl with
+  | [] => True
+  | [EErr _ true] => True
+  | _ => False
+  end -> log_answers 0 (N.succ c) (map tookE l ++ tl) = true.
+Proof.
+  intros Htl. revert c; induction l as [|a l IH]; intros c.
+  - cbn [map app]. destruct tl as [|e0 tl']; [reflexivity|].
+    destruct e0 as [x a|e a|w]; try tauto. destruct tl'; [|destruct a; tauto]. destruct a; [|tauto].
+    cbn [log_answers]. assert ((N.succ c =? 0)%N = false) as -> by apply N.eqb_neq, N.neq_succ_0. reflexivity.
+  - cbn [map app log_answers tookE]. rewrite IH.
+    assert ((N.succ c =? 0)%N = false) as -> by apply N.eqb_neq, N.neq_succ_0. reflexivity.
+Qed.
+
+Lemma run_ok_c_trace k q start j xs oe :
+  ssorted xs -> (forall x, In x xs -> In x (filter (after q start) (names k q))) ->
+  match oe with
+  | Some _ => True
+  | None => fails k q = FNo /\ forall x, In x (filter (after q start) (names k q)) -> In x xs
+  end ->
+  run_ok_c k q start (j, map entry_of (trace_of xs oe (cancel_at j) 0)) = true.
+Proof.
+  intros Hs Hin Hend. rewrite trace_cancel, map_app, map_map.
+  change (map (fun x => entry_of (inl x, true)) xs) with (map tookE xs).
+  unfold run_ok_c. cbv beta iota zeta.
+  assert (Ha : ascending xs = true) by now apply ascending_spec.
+  destruct oe as [e|]; cbn [map].
+  - change (entry_of (inr e, true)) with (EErr (e_code e) true).
+    rewrite (log_protocol_took xs [EErr (e_code e) true] I).
+    pose proof (log_answers_accepted xs [EErr (e_code e) true] 0 I) as Hans.
+    change (N.succ 0) with 1%N in Hans. rewrite Hans.
+    rewrite log_items_took. cbn [log_items flat_map app]. rewrite app_nil_r, Ha.
+    rewrite (forallb_mem_incl xs _ Hin). cbn [andb]. now rewrite last_entry_app.
+  - rewrite app_nil_r.
+    rewrite <- (app_nil_r (map tookE xs)) at 1 2.
+    rewrite (log_protocol_took xs [] I).
+    pose proof (log_answers_accepted xs [] 0 I) as Hans.
+    change (N.succ 0) with 1%N in Hans. rewrite Hans.
+    pose proof (log_items_took xs []) as Hi. change (log_items []) with (@nil bytes) in Hi.
+    rewrite !app_nil_r in Hi. rewrite !Hi, Ha.
+    rewrite (forallb_mem_incl xs _ Hin). cbn [andb]. rewrite last_entry_took. destruct Hend as [-> Hall].
+    assert (forallb (fun x => mem_bytes x xs) (filter (after q start) (names k q)) = true) as Hc
+      by now apply forallb_mem_incl.
+    destruct (last_opt xs); exact Hc.
+Qed.
+
+(* what the model predicts for a cancelled listing of a well-formed stack satisfies the
+   specification: by listing_c_calls it is the complete listing or a prefix with the context
+   error, and by the stack theorem the complete listing is the right one *)
+Lemma run_ok_c_model k q start j :
+  stack_wfb k = true -> run_ok_c k q start (j, model_log_c k q start j) = true.
+Proof.
+  intros Hw. unfold model_log_c.
+  destruct (stack_listing k q start Hw) as (xs & oe & Hrep & Hs & Hin & Hfc).
+  destruct (listing_c_calls k q start j) as (xs' & oe' & Hrep' & Hc).
+  destruct (represents_unique _ _ _ _ _ Hrep Hrep') as [<- <-].
+  assert (Hwant : forall x, In x xs -> In x (filter (after q start) (names k q))).
+  { intros x Hx. apply filter_In. now apply Hin. }
+  destruct Hc as [-> | (pre & post & Hx & ->)].
+  - apply run_ok_c_trace; auto. destruct oe as [e|]; [exact I|].
+    destruct (fails k q).
+    + split; [reflexivity|]. destruct Hfc as [_ Hall]. intros x Hx. apply filter_In in Hx as [H1 H2]. auto.
+    + destruct Hfc as (_ & e & He & _). discriminate.
+    + destruct Hfc as (e & He & _). discriminate.
+  - apply run_ok_c_trace.
+    + rewrite Hx in Hs. now apply ssorted_app_inv in Hs.
+    + intros x Hp. apply Hwant. rewrite Hx. apply in_or_app. now left.
+    + exact I.
+Qed.
+
 Lemma corr_sound_lit c : model_agrees_lit c = true -> obs_ok_lit c = true.
 Proof.
-  unfold model_agrees_lit, obs_ok_lit. intros H. apply andb_true_iff in H as [Hw Hruns].
-  rewrite Hw. cbn [andb]. apply forallb_forall. intros [n log] Hrun.
-  rewrite forallb_forall in Hruns. specialize (Hruns _ Hrun). cbn [fst snd] in Hruns.
-  apply log_eqb_eq in Hruns. subst log.
-  unfold model_log. apply run_ok_lgood. now apply stack_listing.
+  unfold model_agrees_lit, obs_ok_lit. intros H. apply andb_true_iff in H as [H Hcruns].
+  apply andb_true_iff in H as [Hw Hruns].
+  rewrite Hw. cbn [andb]. apply andb_true_iff. split.
+  - apply forallb_forall. intros [n log] Hrun.
+    rewrite forallb_forall in Hruns. specialize (Hruns _ Hrun). cbn [fst snd] in Hruns.
+    apply log_eqb_eq in Hruns. subst log.
+    unfold model_log. apply run_ok_lgood. now apply stack_listing.
+  - apply forallb_forall. intros [j log] Hrun.
+    rewrite forallb_forall in Hcruns. specialize (Hcruns _ Hrun). cbn [fst snd] in Hcruns.
+    apply log_eqb_eq in Hcruns. subst log. now apply run_ok_c_model.
 Qed.
 
 Lemma corr_sound c : model_agrees c = true -> obs_ok c = true.
